@@ -55,6 +55,8 @@ MUTATIONS = [
     ("dask_expr/_expr.py", "        args = [self._blockwise_arg(op, index) for op in self._args]\n        if self._kwargs:", "        args = [self._blockwise_arg(op, 0) for op in self._args]\n        if self._kwargs:", "vf.contracts.layers:BlockwiseTask", "post:operation-applied-to-every-operand-argument-in-order"),
     ("dask_expr/_expr.py", "            self.divisions[index],\n            self.divisions[index + 1],", "            self.divisions[index],\n            self.divisions[index],", "vf.contracts.layers:EnforceDivisionsTask", "post:partition-checked-against-its-own-bounds"),
     ("dask_expr/_expr.py", "            index == (self.npartitions - 1),", "            index == self.npartitions,", "vf.contracts.layers:EnforceDivisionsTask", "post:last-partition-flag"),
+    ("dask_expr/_expr.py", "        dsk[(self._name, 0)] = (tuple, list(dsk.keys()))", "        dsk[(self._name, 0)] = (tuple, list(dsk.keys())[1:])", "vf.contracts.layers:LengthsLayer", "post:output-is-the-tuple-of-all-counts-in-order"),
+    ("dask_expr/_expr.py", "            (name, i): (len, (self.frame._name, i))\n            for i in range(self.frame.npartitions)", "            (name, i): (len, (self.frame._name, i))\n            for i in range(self.frame.npartitions - 1)", "vf.contracts.layers:LengthsLayer", "post:one-len-task-per-input-partition"),
     ("dask_expr/_repartition.py", "        nsplits[-1] += mod\n", "        nsplits[0] += mod\n", "vf.contracts.layers:MoreNSplits", "post:"),
     ("dask_expr/_repartition.py", "        return (None,) * (1 + sum(self._nsplits))", "        return (None,) * (1 + len(self._nsplits))", "vf.contracts.layers:MoreDivisions", "post:length-new+1"),
     ("dask_expr/io/io.py", "        for part, k in enumerate(self.operand(\"keys\")):\n            dsk[(self._name, part)] = k", "        for part, k in enumerate(sorted(self.operand(\"keys\"))):\n            dsk[(self._name, part)] = k", "vf.contracts.layers:FromGraphLayer", "HARMLESS-OR-UNDECIDED"),
